@@ -180,6 +180,14 @@ func verifC03Interpreted() {
 		innerExts = append(innerExts, vOuterExtensions(refTypes))
 		wantExts = append(wantExts, refExts...)
 	}
+	// an inner hello that is large by itself (an opaque extension of 4000 or 9000 bytes): sizes towards the record limit
+	if sz := []int{0, 4000, 9000}[vInt(0, 2)]; sz > 0 {
+		blob := make([]byte, sz)
+		for i := range blob {
+			blob[i] = byte(i * 7)
+		}
+		own(vExt{0x1234, blob})
+	}
 	inner := vHello{version: 0x0303, random: vBytes(32), suites: []byte{0x13, 0x02}, comp: []byte{0}, exts: innerExts}
 	enc := inner
 	enc.sid = vBytes(vInt(0, 2)) // conforming clients send it empty
@@ -187,11 +195,12 @@ func verifC03Interpreted() {
 	tr := newVTransport(sealed.outer.record())
 	c, err := NewConn(context.Background(), tr, WithKeys([]Key{k.key()}))
 	vAssert(err == nil && c.ECHAccepted(), "honest ECH hello accepted (interpreted extensions referenced from the outer hello)")
+	vAssert(len(tr.out) == 0 && !tr.closed, "accepting a hello writes nothing to the client and leaves the connection open")
 	want := inner
 	want.sid = outer.sid
 	want.exts = wantExts
 	wantMsg := vHandshake(want.body())
-	got, _ := vReadAll(c, 4096, 5+len(wantMsg))
+	got, _ := vReadAll(c, 16500, 5+len(wantMsg))
 	vAssert(len(got) == 5+len(wantMsg) && got[0] == 22 && int(got[3])<<8|int(got[4]) == len(wantMsg), "record header frames the inner hello")
 	vAssert(vBytesEq(got[5:], wantMsg), "reconstructed inner hello is byte-exact (outer session id, references spliced in place)")
 	if refSNI {
